@@ -296,7 +296,7 @@ class Framing(Harness):
         pk = obs['pkt']
         if n == 0:
             # an empty payload has no message-type byte: the reader must not crash with an undocumented exception
-            yield 'reader-total', not (isinstance(pk, Exc) and pk.type not in ('SystemExit',))
+            yield 'reader-total', not (isinstance(pk, Exc) and pk.type not in ('SystemExit', 'InvalidPacketException'))
         else:
             ok = (not isinstance(pk, Exc)) and isinstance(pk, tuple)
             yield 'reader-total', ok
@@ -503,7 +503,7 @@ class Ssh1Packet(Harness):
         good = (got == inp['c'])
         yield 'crc-over-padding+payload', s_and(len(obs['crc_input']) == 1, obs['crc_input'][0] == inp['pad'] + inp['payload']) if obs['crc_input'] else False
         if isinstance(pk, Exc):
-            yield 'reject-only-bad-crc', s_and(pk.type == 'SystemExit', s_not(good))
+            yield 'reject-only-bad-crc', s_and(pk.type in ('SystemExit', 'InvalidPacketException'), s_not(good))
         else:
             yield 'accept-only-good-crc', good
             yield 'read-back', s_and(pk[0] == inp['payload'][0], pk[1] == inp['payload'][1:])
